@@ -160,6 +160,13 @@ def generate0(tier, rng):
             yield 'cbor.enc 1 m1 ' + ' '.join(entry(k1, ['t' + hexs(b'image/webp')]))
             yield 'cbor.enc 1 m2 ' + ' '.join(entry(k1, ['b' + hexs(rbytes(rng, 40))]) + entry(k2, ['u7']))
             yield 'cbor.enc 1 m2 ' + ' '.join(entry('u1', ['t' + hexs(b'v' * kl)]) + entry(k2, ['a2', 'u1', 'u2']))
+    # entry counts around the head-size boundary of the map header (23 | 24, and up to 32), top level and nested, into both writer kinds
+    for n in (22, 23, 24, 25, 27, 31, 32, 33, 255, 256, 257):
+        ents = sum((entry(f'u{i}', [f'u{i % 7}']) for i in range(n)), [])
+        yield f'cbor.enc 1 m{n} ' + ' '.join(ents)
+        if n <= 33:
+            yield f'cbor.enc 1 m1 k1 t6e v1 m{n} ' + ' '.join(ents)
+            yield f'cbor.enc 3 a2 m{n} ' + ' '.join(ents) + ' u1'
     # duplicates: adjacent / non adjacent in every position
     for n in range(1, 5):
         for _ in range(20 if not thorough else 200):
